@@ -376,7 +376,7 @@ func cmdCheck(args []string) int {
 			printRun(rr, m, false)
 		}
 		he.Paths, he.Outcomes, he.Decisions, he.Steps, he.Labels = rr.Paths, rr.Outcomes, rr.Decisions, rr.Steps, rr.Labels
-		he.Queries = map[string]int{"total": rr.Queries, "sat": rr.Sat, "unsat": rr.Unsat, "unknown": rr.UnknownQ, "errors": rr.SolverErr}
+		he.Queries = map[string]int{"total": rr.Queries, "sat": rr.Sat, "unsat": rr.Unsat, "unknown": rr.UnknownQ, "errors": rr.SolverErr, "settled_by_fallback_solver": rr.Fallbacks}
 		he.SolverS, he.WallS = rr.SolverTime.Seconds(), rr.Wall.Seconds()
 		states += rr.Paths
 		transitions += rr.Decisions
